@@ -39,3 +39,15 @@ func (m *Conn) VerifStartSniffing() io.Reader { return m.startSniffing() }
 
 // VerifDoneSniffing is doneSniffing.
 func (m *Conn) VerifDoneSniffing() { m.doneSniffing() }
+
+// VerifNewListener builds the multiplexing listener over any net.Listener (New only takes a TCP address).
+func VerifNewListener(root net.Listener, config Config) *Listener {
+	return &Listener{
+		root:         root,
+		bufferSize:   1024,
+		errorHandler: func(_ error) bool { return true },
+		closing:      make(chan struct{}),
+		readTimeout:  noTimeout,
+		config:       config,
+	}
+}
